@@ -3,6 +3,7 @@ from __future__ import annotations
 
 import itertools
 import math
+from collections import abc
 from fractions import Fraction
 
 import numpy as np
@@ -39,10 +40,42 @@ def enc_coord(v: float) -> str:
 
 
 def _import():
+    global Shape2d
     from odc.geo import roi as R
     from odc.geo import math as M
+    from odc.geo.types import Shape2d
 
     return R, M
+
+
+Shape2d = None
+
+
+class _Seq(abc.Sequence):
+    """a plain user-defined Sequence (neither tuple nor list): what ``isinstance(x, abc.Sequence)`` promises to accept"""
+
+    def __init__(self, v):
+        self._v = list(v)
+
+    def __len__(self):
+        return len(self._v)
+
+    def __getitem__(self, i):
+        return self._v[i]
+
+
+def _canon(o):
+    """value of a (possibly failed) N-D region result, independent of the integer type used"""
+    return o if isinstance(o, str) else " ".join(ns(x) for x in o)
+
+
+def shape_spellings(shape):
+    """the same N-D shape written the ways callers write shapes"""
+    out = {"tuple": tuple(shape), "list": list(shape), "seq": _Seq(shape),
+           "npints": tuple(np.int64(v) for v in shape)}
+    if len(shape) == 2:
+        out["shape2d"] = Shape2d(x=shape[1], y=shape[0])
+    return out
 
 
 # the index types numpy itself hands out (argmax, flatnonzero, shape arithmetic); narrow / unsigned scalar types
@@ -201,6 +234,57 @@ def run(R: Run):
         o = guarded(lambda: " ".join(ns(x) for x in roi.roi_normalise((s, s), (n, n))))
         R.oracle(o == " ".join([guarded(lambda: ns(roi.roi_normalise(s, n)))] * 2), "normalise-nd-zip",
                  {"s": enc(s), "n": n}, f"N-D normalise differs from per-axis: {o}", trivial=True)
+
+    # --- N-D regions x the ways a shape is written (tuple, list, Shape2d, user Sequence, numpy ints): the answer
+    #     depends on the values only, and must mean what numpy means
+    for _ in range(R.pick(1500, 15000)):
+        nd = rng.choice([1, 2, 2, 2, 3])
+        shape = tuple(rng.randint(0, 6) for _ in range(nd))
+        X = np.arange(int(np.prod(shape))).reshape(shape) if nd else None
+        kind = rng.random()
+        if kind < 0.3:      # the full region, spelled in various ways
+            r_ = tuple(rng.choice([slice(None), slice(0, n), slice(0, None), slice(None, n)]) for n in shape)
+        elif kind < 0.45 and nd > 1:  # fewer axes than the array has: trailing axes are whole
+            r_ = tuple(slice(rng.choice([None, 0]), rng.choice([None, n])) for n in shape[:-1])
+        else:
+            r_ = tuple(slice(rng.choice([None, rng.randint(-n - 1, n + 1)]), rng.choice([None, rng.randint(-n - 1, n + 1)]))
+                       for n in shape)
+        sp = shape_spellings(shape)
+        sel = X[r_]
+        ref = {}
+        pad = rng.choice([0, 1, 2])
+        k = rng.randint(1, 4)
+        for nm, shp in sp.items():
+            case = {"roi": [enc(x) for x in r_], "shape": list(shape), "spelling": nm}
+            o = guarded(lambda: roi.roi_normalise(r_, shp))
+            okn = (not isinstance(o, str)) and isinstance(o, tuple) and len(o) == len(r_) and np.array_equal(X[o], sel) \
+                and all(isinstance(x.start, (int, np.integer)) and isinstance(x.stop, (int, np.integer)) for x in o)
+            R.oracle(okn, "normalise-nd-selects-different-elements", case, f"roi_normalise -> {o}", sig=f"norm-nd|{nm}")
+            if len(r_) == nd:   # roi_is_full documents "covers (0,..) -> shape": one entry per axis
+                fl = guarded(lambda: roi.roi_is_full(r_, shp))
+                want = all((x.start in (0, None)) and (x.stop in (n, None)) for x, n in zip(r_, shape))
+                # index-set meaning: whenever the answer is True the selection IS the whole array; and every
+                # canonical spelling of "everything" is recognised
+                R.oracle(fl is want and (not fl or sel.shape == X.shape), "full-iff-nd", case,
+                         f"roi_is_full -> {fl}, X[roi].shape={sel.shape}, X.shape={X.shape}", sig=f"full-nd|{nm}")
+            pp = guarded(lambda: roi.roi_pad(r_, pad, shp))
+            ref.setdefault("pad", pp if nm == "tuple" else None)
+            if nm != "tuple":
+                R.oracle(_canon(pp) == _canon(ref["pad"]), "shape-spelling-changes-result:roi_pad", dict(case, pad=pad),
+                         f"{pp} vs {ref['pad']} for the tuple spelling", sig=f"pad-nd|{nm}")
+            elif not isinstance(pp, str) and len(r_) == nd and all(len(np.arange(n)[x]) for x, n in zip(r_, shape)):
+                want_p = tuple(slice(max(0, np.arange(n)[x][0] - pad), min(n, np.arange(n)[x][-1] + 1 + pad))
+                               for x, n in zip(r_, shape))
+                R.oracle(tuple((int(x.start), int(x.stop)) for x in pp) == tuple((int(x.start), int(x.stop)) for x in want_p),
+                         "pad-nd-grows-clamped", dict(case, pad=pad), f"{pp} want {want_p}", sig="pad-nd|tuple")
+            if nd == 2 and len(r_) == 2 and not isinstance(o, str) and okn:
+                up = guarded(lambda: roi.scaled_up_roi(o, k, shp))
+                ref.setdefault("up", up if nm == "tuple" else None)
+                if nm != "tuple":
+                    R.oracle(_canon(up) == _canon(ref["up"]), "shape-spelling-changes-result:scaled_up_roi", dict(case, k=k),
+                             f"{up} vs {ref['up']}", sig=f"up-nd|{nm}")
+            ds = guarded(lambda: tuple(int(v) for v in roi.scaled_down_shape(shp, 2)))
+            R.oracle(ds == tuple((n + 1) // 2 for n in shape), "scaled-down-shape-nd", case, f"{ds}", sig=f"downshape-nd|{nm}")
 
     # --- intersections: exhaustive over closed slices with bounds 0..M, plus error branches
     Mx = R.pick(6, 8)
@@ -365,38 +449,69 @@ def run(R: Run):
                  {"a": a, "b": b}, f"roi_center={cc!r}")
 
     # --- roi_from_points
-    def pts_case(pts, ny, nx, pad, al, tag):
-        arr = np.asarray(pts, dtype="float64").reshape(-1, 2)
+    def pts_case(pts, ny, nx, pad, al, tag, spell=None):
+        """spell: how the SAME mathematical input is spelled — dtype/layout/writeability of the point array,
+        container/int type of shape, int type of padding/align.  The expected answer depends on the values only."""
+        spell = spell or {}
+        base = np.asarray(pts, dtype="float64").reshape(-1, 2)
+        dt = spell.get("dtype", "float64")
+        with np.errstate(over="ignore", invalid="ignore"):
+            if dt.startswith("int"):
+                if base.size and not (np.isfinite(base).all() and (np.abs(base) < 2.0**(31 if dt == "int32" else 52)).all()
+                                      and (base == np.floor(base)).all()):
+                    dt = "float64"
+            arr = base.astype(dt)
+        lay = spell.get("layout", "C")
+        if lay == "F":
+            arr = np.asfortranarray(arr)
+        elif lay == "view":
+            big_ = np.zeros((2 * arr.shape[0] + 1, 5), dtype=arr.dtype)
+            v_ = big_[1::2, 1:4:2]
+            v_[...] = arr
+            arr = v_
+        if spell.get("ro"):
+            arr.flags.writeable = False
+        with np.errstate(over="ignore", invalid="ignore"):
+            vals = arr.astype("float64")  # exact: every float16/32 and |int| < 2**52 is a double
+        snapshot = arr.copy()
+        shp = {"tuple": lambda: (ny, nx), "list": lambda: [ny, nx], "shape2d": lambda: Shape2d(x=nx, y=ny),
+               "npints": lambda: (np.int64(ny), np.int64(nx)), "seq": lambda: _Seq([ny, nx])}[spell.get("shape", "tuple")]()
+        pad_ = np.int64(pad) if spell.get("np_pad") else pad
+        al_ = np.int64(al) if (spell.get("np_pad") and al is not None) else al
         res = []
 
         def f():
-            o = roi.roi_from_points(arr, (ny, nx), padding=pad, align=al)
+            o = roi.roi_from_points(arr, shp, padding=pad_, align=al_)
             res.append(o)
             return f"{ns(o[0])} {ns(o[1])}"
 
         line = f"c17 frompts {ny} {nx} {pad} {opt_s(al)} " + list_s(
-            [f"{enc_coord(float(x))};{enc_coord(float(y))}" for x, y in arr])
-        R.corr(line, f, sig=f"frompts|{tag}")
+            [f"{enc_coord(float(x))};{enc_coord(float(y))}" for x, y in vals])
+        sp_tag = "|".join(f"{k}={v}" for k, v in sorted(spell.items()) if v not in (False, "float64", "C", "tuple"))
+        R.corr(line, f, sig=f"frompts|{tag}" + (f"|{sp_tag}" if sp_tag else ""))
+        case = {"line": line, "spell": spell}
+        R.oracle(np.array_equal(arr, snapshot, equal_nan=True), "from-points-mutates-caller-array", case,
+                 "the caller's point array was modified by the call", trivial=True)
         if not res:
-            R.oracle(False, "from-points-raises", {"line": line}, "roi_from_points raised")
+            R.oracle(False, "from-points-raises", case, "roi_from_points raised")
             return
         ys, xs = res[0]
-        fin = [(Fraction(float(x)), Fraction(float(y))) for x, y in arr if math.isfinite(x) and math.isfinite(y)]
+        fin = [(Fraction(float(x)), Fraction(float(y))) for x, y in vals if math.isfinite(x) and math.isfinite(y)]
         ok_within = 0 <= ys.start <= ny and 0 <= ys.stop <= ny and 0 <= xs.start <= nx and 0 <= xs.stop <= nx
-        R.oracle(ok_within, "from-points-outside-image", {"line": line}, f"{res[0]}", trivial=True)
+        R.oracle(ok_within, "from-points-outside-image", case, f"{res[0]}", trivial=True)
         for (x, y) in fin:
             if 0 <= x <= nx and 0 <= y <= ny:
                 ok = (xs.start <= max(0, x - pad) and min(nx, x + pad) <= xs.stop
                       and ys.start <= max(0, y - pad) and min(ny, y + pad) <= ys.stop)
-                R.oracle(ok, "from-points-drops-inside-point", {"line": line, "pt": [str(x), str(y)]},
+                R.oracle(ok, "from-points-drops-inside-point", dict(case, pt=[str(x), str(y)]),
                          f"point ({float(x)},{float(y)}) inside the image is not within {res[0]}")
         if al:
             ok = all((v % al == 0 or v == n) for v, n in
                      ((ys.start, ny), (ys.stop, ny), (xs.start, nx), (xs.stop, nx)))
-            R.oracle(ok, "from-points-alignment", {"line": line}, f"{res[0]}")
+            R.oracle(ok, "from-points-alignment", case, f"{res[0]}")
         if not fin:
             R.oracle((ys.start, ys.stop, xs.start, xs.stop) == (0, 0, 0, 0), "from-points-nonfinite-only",
-                     {"line": line}, f"{res[0]}")
+                     case, f"{res[0]}")
         else:
             # the region is the envelope of ALL finite points (outliers included), padded, aligned, clipped
             def env(vals, n):
@@ -408,7 +523,7 @@ def run(R: Run):
 
             want = (env([p[1] for p in fin], ny), env([p[0] for p in fin], nx))
             got = ((ys.start, ys.stop), (xs.start, xs.stop))
-            R.oracle(got == want, "from-points-not-envelope", {"line": line},
+            R.oracle(got == want, "from-points-not-envelope", case,
                      f"region {got} is not the padded/aligned/clipped envelope {want} of the finite points")
 
     tiny = [1e-6, 1e-9, 1e-10, 3e-11, 1e-11, 1e-13, 2.0**-40, 2.0**-52]
@@ -430,6 +545,13 @@ def run(R: Run):
             return rng.choice([float("nan"), float("inf"), float("-inf")])
         return rng.choice([-1, 1]) * far
 
+    def rnd_spell(allow_np=True):
+        return {"dtype": rng.choice(["float64", "float64", "float32", "float32", "float16", "int64", "int32"]),
+                "layout": rng.choice(["C", "C", "F", "view"]), "ro": rng.random() < 0.3,
+                "shape": rng.choice(["tuple", "list", "shape2d", "npints", "seq"] if allow_np else
+                                    ["tuple", "list", "shape2d", "seq"]),
+                "np_pad": rng.random() < 0.3}
+
     fars = [3e9, 2.0**31, 2.0**31 + 0.5, 2.0**32 + 7, 1e12, 2.0**63, 1e19, 1e300, 2147483647.0, 2147483648.5,
             4294967296.0, 2.0**53 + 2, 9e307, 1e308, 1.7976931348623157e308, 5e-324, 2.0**62]
     for _ in range(R.pick(4000, 40000)):
@@ -446,7 +568,30 @@ def run(R: Run):
         tag = ("empty" if k == 0 else "far" if any(abs(v) >= 2**31 for p in pts for v in p if math.isfinite(v))
                else "nonfinite" if any(not math.isfinite(v) for p in pts for v in p)
                else "near-int" if any(0 < abs(v - round(v * 2) / 2) < 1e-5 for p in pts for v in p) else "plain")
-        pts_case(pts, ny, nx, pad, al, tag)
+        pts_case(pts, ny, nx, pad, al, tag, rnd_spell() if rng.random() < 0.5 else None)
+
+    # the same, on images so large that the far edge of the image itself lies where narrower float types lose
+    # integer resolution (2**11 for float16, 2**24 for float32, 2**53 for doubles) or beyond 32 / 64 bits
+    for _ in range(R.pick(3000, 30000)):
+        e = rng.choice([11, 12, 16, 24, 25, 26, 31, 32, 33, 40, 52, 53, 54, 63, 64, 70])
+        ny, nx = ((1 << e) + rng.randint(-3, 40) * rng.choice([1, 1, 2, 16]) for _ in range(2))
+        k = rng.randint(1, 4)
+
+        def edge_coord(n):
+            r = rng.random()
+            if r < 0.45:   # near the far edge, inside or just outside
+                return float(n - rng.choice([0, 1, 2, 3, 5, 8, 17, 64, 1000]) + rng.choice([0, 0, 0.5, 0.25, 3]))
+            if r < 0.6:    # at a precision cliff inside the image
+                c = 1 << rng.choice([x for x in (11, 16, 24, 25, 31, 32, 53) if x <= e] or [e])
+                return float(c + rng.randint(-4, 4) + rng.choice([0, 0.5]))
+            if r < 0.85:
+                return rng.randint(0, 400) / 4
+            return rng.choice([-1, 1]) * rng.choice(fars)
+
+        pts = [(edge_coord(nx), edge_coord(ny)) for _ in range(k)]
+        pad = rng.choice([0, 1, 1, 2, 3, 5, 100])
+        al = rng.choice([None, None, 1, 2, 4, 16, 256])
+        pts_case(pts, ny, nx, pad, al, f"big-image|2^{e}", rnd_spell(allow_np=e < 62))
     # corpus: the replay of finding F11
     pts_case([(5, 5), (1e12, 7)], 100, 100, 0, None, "far")
     pts_case([(5, 5), (-1e12, 7)], 100, 100, 0, None, "far")
